@@ -181,6 +181,7 @@ func run(seed int64, n int, dir string, _ []string) {
 				}
 			}
 			o.Count("query_runs")
+			o.Eval()
 			o.NonTrivial(fmt.Sprintf("q%d:%d:%s", qi, k, ref[:strings.Index(ref, ":")]))
 		}
 		for di, prog := range dml {
@@ -211,6 +212,7 @@ func run(seed int64, n int, dir string, _ []string) {
 				}
 			}
 			o.Count("dml_runs")
+			o.Eval()
 			o.NonTrivial(fmt.Sprintf("d%d:%d", di, k))
 		}
 		_ = os.RemoveAll(base)
